@@ -35,7 +35,8 @@ RULE = ("formulas from (a) parsing a rendered derivation tree whose counts span 
         "table, arithmetic, mixtures) are built and round-tripped, then formulas covering every element ion of the "
         "table (499, exhaustive) plus drawn isotope ions are parsed/printed/parsed back in a drawn order, then the "
         "first formulas are round-tripped again against the atom objects they hold, which must still be the "
-        "objects the table serves. Oracle: s=str(f) must parse; the parsed structure "
+        "objects the table serves, (e) wide formulas: 120-400 sibling multi-atom groups on one level built as a sum "
+        "chain, by +=, as one sequence, by mix_by_weight, or 0.5*chain. Oracle: s=str(f) must parse; the parsed structure "
         "must equal (same nesting, atoms by identity, counts as equal doubles) the structure of f with each count "
         "rounded to 6 significant digits and groups of (rounded) count 1 dissolved; for (a) also the structure the "
         "grammar gives the tree; repr(f) == \"formula('\"+s+\"')\"; with a name, str is the name and repr shows it. "
@@ -582,6 +583,57 @@ def task_mixture(ctx, n):
     ctx.search("mixture", strat, check_mixture, n)
 
 
+# ----------------------------------------------------------------------
+# (e) wide formulas: several hundred sibling groups on one level
+WIDE_MULTS = [2, 3, 1.5, 0.5, 12, 2.25, 7, 0.125]
+
+
+def wide_case(pool):
+    piece = fa.compound(pool, depth=1, max_groups=2, max_atoms=3, density=False)
+    return st.fixed_dictionaries({
+        "kind": st.just("wide"), "pieces": st.lists(piece, min_size=2, max_size=4),
+        "n": st.integers(120, 400), "how": st.sampled_from(["chain", "iadd", "seq", "mix", "half-chain"]),
+        "m": st.lists(st.integers(0, 7), min_size=3, max_size=6)})
+
+
+def check_wide(ctx, case):
+    E = env()
+    formula, pt = E["formula"], E["pt"]
+    try:
+        pieces = [formula(fa.render(t)) for t in case["pieces"]]
+        pieces = [p if len(p.atoms) > 1 or len(p.structure) > 1 else p + formula("HO2") for p in pieces]
+        n, how, ms = case["n"], case["how"], case["m"]
+        mult = lambda k: WIDE_MULTS[ms[k % len(ms)] % len(WIDE_MULTS)]
+        if how in ("chain", "half-chain"):
+            f = mult(0) * pieces[0]
+            for k in range(1, n):
+                f = f + mult(k) * pieces[k % len(pieces)]
+            if how == "half-chain":
+                f = 0.5 * f
+        elif how == "iadd":
+            f = formula('')
+            for k in range(n):
+                f += mult(k) * pieces[k % len(pieces)]
+        elif how == "seq":
+            f = formula([(mult(k), pieces[k % len(pieces)].structure) for k in range(n)])
+        else:
+            args = []
+            for k in range(min(n, 160)):
+                args += [pieces[k % len(pieces)], float(1 + (k * 7) % 5)]
+            f = pt.mix_by_weight(*args)
+    except Exception:  # noqa
+        ctx.inconclusive += 1
+        ctx.count("inconclusive:source-rejected")
+        return
+    ctx.count("wide:top-level-terms", len(f.structure))
+    roundtrip(ctx, f, case, "public", "wide:" + how)
+
+
+def task_wide(ctx, n):
+    E = env()
+    ctx.search("wide", wide_case(E["pool"]), check_wide, n)
+
+
 def task_long(ctx, n):
     E = env()
     ctx.search("long", long_case(E["pool"]), check_long, n)
@@ -609,12 +661,14 @@ def tasks(tier):
                 ("mixture-b", task_mixture, dict(n=300)),
                 ("mixture-c", task_mixture, dict(n=300)),
                 ("mixture-d", task_mixture, dict(n=300)),
+                ("wide", task_wide, dict(n=10)),
                 ("long-a", task_long, dict(n=12)),
                 ("long-b", task_long, dict(n=12)),
                 ("fixed", task_fixed, dict())]
     out = [("fixed", task_fixed, dict())]
     for k in range(3):
         out.append(("long-%d" % k, task_long, dict(n=250)))
+    out.append(("wide", task_wide, dict(n=300)))
     for k in range(6):
         out.append(("tree-%d" % k, task_tree, dict(n=15000, depth=1 + k % 4)))
     for k in range(5):
@@ -637,6 +691,8 @@ def replay(ctx, case):
         check_mixture(ctx, (case["mixture"], case.get("name")))
     elif k == "long":
         check_long(ctx, case)
+    elif k == "wide":
+        check_wide(ctx, case)
     elif k == "empty":
         task_fixed(ctx)
     else:
